@@ -535,11 +535,15 @@ def parallel_map(fn, items: Iterable, procs: int = NCPU, chunksize: int = 1) -> 
         return [fn(x) for x in items]
     from harness import cov
 
-    pool = mp.get_context("fork").Pool(min(procs, len(items)), initializer=cov.worker_init)
+    # (an executor rather than multiprocessing.Pool: a worker that dies - killed, out of memory, interpreter crash - breaks
+    #  the pool with an exception instead of leaving map() waiting for ever)
+    import concurrent.futures as cf
+    from concurrent.futures.process import BrokenProcessPool
+
+    ex = cf.ProcessPoolExecutor(max_workers=min(procs, len(items)), mp_context=mp.get_context("fork"), initializer=cov.worker_init)
     try:
-        res = pool.map(fn, items, chunksize)
-        pool.close()
-        pool.join()
-        return res
+        return list(ex.map(fn, items, chunksize=max(1, chunksize)))
+    except BrokenProcessPool as e:
+        raise MachineryError(f"a worker process died while running {getattr(fn.fn, '__name__', fn)}: {e}") from e
     finally:
-        pool.terminate()
+        ex.shutdown(wait=True, cancel_futures=True)
